@@ -204,7 +204,9 @@ func init() { Drivers["prim-fixed-counts"] = drivePrimFixedCounts }
 var elemKinds = []struct {
 	ek string
 	w  int
-}{{"i8", 1}, {"i16", 2}, {"i32", 4}, {"i64", 8}, {"u8", 1}, {"u16", 2}, {"u32", 4}, {"u64", 8}, {"f32", 4}, {"f64", 8}}
+}{{"i8", 1}, {"i16", 2}, {"i32", 4}, {"i64", 8}, {"u8", 1}, {"u16", 2}, {"u32", 4}, {"u64", 8}, {"f32", 4}, {"f64", 8},
+	// defined types over the built-in ones (type Qty uint32): admitted by the ~ constraints
+	{"du16", 2}, {"di32", 4}, {"du32", 4}, {"di64", 8}, {"df64", 8}}
 
 // digits of n in w bytes, in the given order (the harness's own trivial renderer, used only to
 // make reader INPUT; what the reader must return from it is decided by TLC)
@@ -278,6 +280,29 @@ func drivePrimPairs(c *DriverCtx) error {
 					}
 					if err := c.Run(ops); err != nil {
 						return err
+					}
+				}
+			}
+			// lists longer than any 16-bit count (behind 32- and 64-bit prefixes): more than 2^16 elements
+			if pw >= 4 && rep == 0 {
+				big := []int{65537, 70001}
+				if c.N > 1 {
+					big = append(big, 131072, 131075)
+				}
+				for bi, cnt := range big {
+					for _, ek := range []string{"i16", "u32", "f64"}[bi%3 : bi%3+1+boolToInt(c.N > 1)*0] {
+						w := map[string]int{"i16": 2, "u32": 4, "f64": 8}[ek]
+						el := nonPal(w)
+						ops := []Op{}
+						for _, le := range []bool{false, true} {
+							bn := fmt.Sprintf("w%v", le)
+							ops = append(ops, Op{Op: "prim", B: bn, Fn: "WriteBasicTypeList", Args: map[string]any{"count": cnt, "elem": el, "vals": []any{}, "pw": pw, "ek": ek, "le": le},
+								Tag: "more-than-65536-elements"},
+								Op{Op: "prim", B: bn, Fn: "ReadBasicTypeList", Args: map[string]any{"count": cnt, "elem": el, "vals": []any{}, "pw": pw, "ek": ek, "le": le}, Tag: "read-back"})
+						}
+						if err := c.Run(ops); err != nil {
+							return err
+						}
 					}
 				}
 			}
@@ -679,7 +704,7 @@ func init() { Drivers["calc-reuse"] = driveCalcReuse }
 func drivePrimSweep(c *DriverCtx) error {
 	max := 1100
 	if c.N > 1 {
-		max = 4200
+		max = 2400
 	}
 	type fam struct {
 		wfn, rfn string
